@@ -755,7 +755,8 @@ class XsdElement(XsdComponent, ParticleMixin,
                 value, content = content[0][1], None
 
             if self.fixed is not None and \
-                    (len(obj) > 0 or value is not None and self.fixed != value):
+                    (len(obj) > 0 or value is not None and self.fixed != value or
+                     value is None and obj.text and self.fixed != obj.text.strip()):
                 reason = _("must have the fixed value %r") % self.fixed
                 context.validation_error(validation, self, reason, obj)
 
